@@ -10,6 +10,11 @@ CHECKS = {
         text="Round trip, every single flip and every double flip (symbolic one-/two-hot masks over all code bits, every lane, other lanes arbitrary), byte-enable widening and the granularity flag are postconditions of the real LiteDRAMNativePortECCW/ECCR proved for all inputs; counters, sticky flags and pipeline of LiteDRAMNativePortECC proved by induction against reference instances of those modules.",
         note="Lane widths 8/16/32/64 x 8 lanes enumerated. CSR software writes are free inputs; CSR shims in the harness process. rdata words presented one cycle each.",
     ),
+    "C06": dict(
+        engine="HWVC", category="proof", technique="contract-based deductive verification: combinational validity (z3) of layout/bijection postconditions on the expression trees returned by the real address-mapping functions, per geometry",
+        text="For each geometry the expressions produced by the real get_bank_address/get_row_column_address/_AddressSlicer and the real crossbar routing are proved, for all port addresses, to equal the explicit column->bank->row layout (hence bijective), injective on two symbolic addresses, never to use A10 as a column bit, and to walk columns, banks, rows in that order; the bank machine's use of the address on ACT/RD/WR is a postcondition of the real BankMachine.",
+        note="Enumerated geometries (quick 140, thorough ~600 incl. bank_byte_alignment). Preconditions explicit: bank field inside the address; addressbits >= colbits+1 when colbits>10.",
+    ),
 }
 _todo = "check not built yet in this round (design in DESIGN.md §3); will be claimed when its contracts are committed"
 NOT_APPLICABLE = {("C%02d" % i): _todo for i in range(1, 21)}
